@@ -42,6 +42,32 @@ func genC15(maxOps int) func(t *rapid.T) c15Case {
 		var c c15Case
 		c.Limit = rapid.IntRange(2, 4).Draw(t, "limit")
 		c.Expire = rapid.IntRange(2, 4).Draw(t, "expire")
+		if rapid.IntRange(0, 4).Draw(t, "template") == 0 {
+			// history template "partial expiry": one sender has buffered topics of different ages, a collection expires
+			// only the old ones, then the sender opens further topics; finally everything is started
+			snd := rapid.IntRange(1, 3).Draw(t, "tsender")
+			nold := rapid.IntRange(1, 2).Draw(t, "told")
+			nyoung := rapid.IntRange(1, c.Limit).Draw(t, "tyoung")
+			nnew := rapid.IntRange(1, c.Limit+3).Draw(t, "tnew")
+			tp := 500
+			for i := 0; i < nold; i++ {
+				c.Ops = append(c.Ops, c15Op{Kind: 0, Sender: snd, Topic: tp, Burst: 1})
+				tp++
+			}
+			c.Ops = append(c.Ops, c15Op{Kind: 2, Epochs: c.Expire})
+			for i := 0; i < nyoung; i++ {
+				c.Ops = append(c.Ops, c15Op{Kind: 0, Sender: snd, Topic: tp, Burst: 1})
+				tp++
+			}
+			c.Ops = append(c.Ops, c15Op{Kind: 2, Epochs: 1}, c15Op{Kind: 1, Sender: snd, Topic: 900, Burst: 1})
+			for i := 0; i < nnew; i++ {
+				c.Ops = append(c.Ops, c15Op{Kind: 0, Sender: snd, Topic: tp, Burst: 1})
+				tp++
+			}
+			for x := 500; x < tp; x++ {
+				c.Ops = append(c.Ops, c15Op{Kind: 1, Sender: snd, Topic: x, Burst: 1})
+			}
+		}
 		n := rapid.IntRange(3, maxOps).Draw(t, "nops")
 		base := 0
 		for i := 0; i < n; i++ {
@@ -73,6 +99,8 @@ type c15Msg struct {
 	topic, sender, seq int
 	epoch              int  // arrival epoch
 	must               bool // the model says it must be accepted
+	mustNot            bool // the model says it must be shed (clearly beyond a limit)
+	arrIdx, handIdx    int  // logical time of arrival and of hand-off (0 = not handed)
 	mayExpire          bool
 	handed             int
 }
@@ -136,6 +164,7 @@ func runC15(c c15Case) *vh.Outcome {
 			}
 		}
 		var all []*c15Msg
+		clock := 0 // logical time: one tick per box call
 		byKey := map[string]*c15Msg{}
 		started := map[int]bool{}
 		lastSend := map[int]int{}        // topic -> epoch of the last Send
@@ -196,7 +225,11 @@ func runC15(c c15Case) *vh.Outcome {
 					continue
 				}
 				m.handed++
+				m.handIdx = clock
 				info.Handed++
+				if m.mustNot && fail == nil {
+					fail = vh.Failf("C15/topic-limit-exceeded", "sender %d already had at least %d buffered topics (limit %d, give or take one) when it opened topic %d at epoch %d, yet that message (seq %d) was buffered and handed over", m.sender, c.Limit+2, c.Limit, m.topic, m.epoch, m.seq)
+				}
 				if m.handed > 1 && fail == nil {
 					fail = vh.Failf("C15/duplicate", "message topic %d sender %d seq %d was handed over %d times", tp, im.Source, sq, m.handed)
 				}
@@ -227,6 +260,24 @@ func runC15(c c15Case) *vh.Outcome {
 						delete(act, op.Topic)
 						within := len(act) <= c.Limit-1 && pendingCount(op.Topic, op.Sender) < c15PerSenderLimit-1
 						m.must = within
+						// clearly beyond the topics-in-flight limit: the sender certainly has limit+2 other buffered topics
+						// (accepted for sure, not started, too young to have expired) and opens yet another one
+						certain := map[int]bool{}
+						for _, x := range all {
+							if x.sender == op.Sender && x.topic != op.Topic && x.must && x.handed == 0 && !started[x.topic] && epoch-x.epoch < c.Expire && epoch-firstArrival[x.topic] < c.Expire {
+								certain[x.topic] = true
+							}
+						}
+						newTopic := true
+						for _, x := range all {
+							if x.sender == op.Sender && x.topic == op.Topic && x.handed == 0 {
+								newTopic = false
+							}
+						}
+						if newTopic && len(certain) >= c.Limit+2 {
+							m.mustNot = true
+							info.CrossedTopicLimit = true
+						}
 						if len(act) >= c.Limit {
 							info.CrossedTopicLimit = true
 						}
@@ -245,6 +296,8 @@ func runC15(c c15Case) *vh.Outcome {
 					} else {
 						m.must = true
 					}
+					clock++
+					m.arrIdx = clock
 					all = append(all, m)
 					byKey[fmt.Sprintf("%d/%d/%d", m.topic, m.sender, m.seq)] = m
 					info.Received++
@@ -273,8 +326,23 @@ func runC15(c c15Case) *vh.Outcome {
 				for _, m := range all {
 					before[m] = m.handed
 				}
+				clock++
 				guard("Send", func() { box.Send(uint8(tss.MsgTypeMPC), c15Topic(op.Topic), []byte("x"), 1) })
 				collect()
+				if fail != nil {
+					break
+				}
+				released := map[int]int{}
+				for _, m := range all {
+					if m.topic == op.Topic && m.handed > before[m] {
+						released[m.sender]++
+					}
+				}
+				for snd, n := range released {
+					if n > c15PerSenderLimit+2 && !started[op.Topic] {
+						fail = vh.Failf("C15/message-limit-exceeded", "a Send on topic %d released %d buffered messages of sender %d; the per-sender limit is %d (give or take one)", op.Topic, n, snd, c15PerSenderLimit)
+					}
+				}
 				if fail != nil {
 					break
 				}
@@ -348,6 +416,7 @@ func runC15(c c15Case) *vh.Outcome {
 				}
 			}
 			for tp := range topics {
+				clock++
 				guard("Send", func() { box.Send(uint8(tss.MsgTypeMPC), c15Topic(tp), []byte("flush"), 1) })
 				collect()
 			}
@@ -368,12 +437,26 @@ func runC15(c c15Case) *vh.Outcome {
 				}
 			}
 		}
-		// per (topic, sender): bounded retention
+		// bounded retention, observed: a message that was handed over by a later Send sat in the buffer from its arrival
+		// to that Send. At no time may one sender have had more than limit+2 topics buffered (the limit, give or take one,
+		// plus the one the check lets through).
 		if fail == nil {
-			cnt := map[[2]int]int{}
-			for _, m := range all {
-				if m.handed > 0 && !m.must {
-					cnt[[2]int{m.topic, m.sender}]++
+			for snd := 1; snd <= 3 && fail == nil; snd++ {
+				for _, at := range all {
+					if at.sender != snd || at.handIdx <= at.arrIdx {
+						continue
+					}
+					topics := map[int]bool{}
+					for _, m := range all {
+						if m.sender == snd && m.handIdx > m.arrIdx && m.arrIdx <= at.arrIdx && m.handIdx > at.arrIdx {
+							topics[m.topic] = true
+						}
+					}
+					if len(topics) > c.Limit+2 {
+						info.CrossedTopicLimit = true
+						fail = vh.Failf("C15/topic-limit-exceeded", "sender %d had %d topics buffered at the same time (when its message seq %d on topic %d arrived at epoch %d); the limit is %d, give or take one", snd, len(topics), at.seq, at.topic, at.epoch, c.Limit)
+						break
+					}
 				}
 			}
 		}
